@@ -31,8 +31,12 @@ func checkC13(c *Check) {
 	}
 	// pairing
 	n1 := pairOnSuccessPaths(c, "PAIRING", vis, "Indent/Unindent",
-		func(i ssa.Instruction) bool { return methodCallNamed(i, cmdutilsPkg, "SequenceDiagramWriter", "Indent") },
-		func(i ssa.Instruction) bool { return methodCallNamed(i, cmdutilsPkg, "SequenceDiagramWriter", "Unindent") })
+		func(i ssa.Instruction) bool {
+			return methodCallNamed(i, cmdutilsPkg, "SequenceDiagramWriter", "Indent")
+		},
+		func(i ssa.Instruction) bool {
+			return methodCallNamed(i, cmdutilsPkg, "SequenceDiagramWriter", "Unindent")
+		})
 	// Activated → call of the returned closure
 	n2 := 0
 	for _, f := range vis {
